@@ -92,6 +92,8 @@ impl Sim {
                 lifetime_base_ms: 0,
                 told_low: 0,
                 told_all: 0,
+                told_low_step_start: 0,
+                told_all_step_start: 0,
                 getinfo_replies_this_lifetime: 0,
                 skew_s: 0,
                 plugin_up: false,
@@ -161,6 +163,9 @@ impl Sim {
             if self.w.cfg.backpressure {
                 ctx.stdout.write_max = 5;
             }
+            ctx.yield_permille = self.w.cfg.f_yield;
+            ctx.yield_state = mix(self.seed, 0x71E1D + lt as u64) | 1;
+            tokio::verif_hook::set(Some(seam::yield_coin));
             seam::install(ctx);
             self.w.lifetime_base_ms = self.w.now_ms;
             self.stats.lifetimes += 1;
@@ -169,6 +174,9 @@ impl Sim {
             drop(rt);
             if let Some(ctx) = seam::uninstall() {
                 self.wall_last_ns = ctx.wall.last_ns;
+                if ctx.yields > 0 {
+                    *self.stats.faults.entry("task-yield-before-lock").or_insert(0) += ctx.yields;
+                }
                 self.stats.faults.entry("stdout-pending").or_insert(0);
                 *self.stats.faults.get_mut("stdout-pending").unwrap() += ctx.stdout.pending_returns;
                 *self.stats.faults.entry("stdout-short-write").or_insert(0) +=
@@ -271,10 +279,19 @@ impl Sim {
                 self.stats.fault("waitsendpay-timeout-200");
             }
             self.w.op_kind = op.kind();
+            self.w.told_low_step_start = self.w.told_low;
+            self.w.told_all_step_start = self.w.told_all;
             self.w.step_delivered_calls.clear();
             self.w.step_delivers_only_nontrampoline = false;
             self.w.step_has_rpc_stimulus = false;
-            self.execute(&op).await;
+            if let Op::Multi { ops } = &op {
+                self.stats.fault("multi-op-step");
+                for o in ops {
+                    self.execute(o).await;
+                }
+            } else {
+                self.execute(&op).await;
+            }
             self.settle().await;
             self.process_events();
             if self.w.cfg.mode == "watcher" {
@@ -451,12 +468,16 @@ impl Sim {
                     while let Some((cmd, arg)) = crx.recv().await {
                         match cmd.as_str() {
                             "new_block" => {
-                                bw.new_block(&crate::messages::BlockAdded { height: arg as u32 })
-                                    .await;
-                                seam::push_event(PluginEvent::Component(
-                                    "new_block_done".into(),
-                                    json!(arg),
-                                ));
+                                // Each notification is its own task, as in the plugin driver.
+                                let bw2 = Arc::clone(&bw);
+                                tokio::spawn(async move {
+                                    bw2.new_block(&crate::messages::BlockAdded { height: arg as u32 })
+                                        .await;
+                                    seam::push_event(PluginEvent::Component(
+                                        "new_block_done".into(),
+                                        json!(arg),
+                                    ));
+                                });
                             }
                             _ => {
                                 let h = bw.current_height().await;
@@ -953,6 +974,7 @@ impl Sim {
                 self.w.frozen_at_step = Some(self.w.step);
                 self.stats.fault("hash-frozen");
             }
+            Op::Multi { .. } => {}
             Op::Crash { .. } => unreachable!(),
         }
     }
